@@ -14,12 +14,21 @@ pub fn parse_number(value: &str, decimal_separator: char, group_separator: char)
 pub uninterp spec fn is_neg(a: f64, b: f64) -> bool;
 #[verifier::external_body]
 pub fn shim_neg(a: f64) -> (r: f64) ensures is_neg(a, r) { -a }
-pub assume_specification [str::trim] (s: &str) -> (r: &str);
+pub uninterp spec fn trimmed(s: Seq<char>) -> Seq<char>;
+pub assume_specification [str::trim] (s: &str) -> (r: &str) ensures r@ == trimmed(s@);
+pub open spec fn signed(s: Seq<char>) -> bool { s.len() > 0 && (s[0] == '-' || s[0] == '+') }
+/// `<str>.starts_with(['-', '+'])`
+#[verifier::external_body]
+pub fn starts_with_sign(s: &str) -> (r: bool) ensures r == signed(s@) { s.starts_with(['-', '+']) }
+#[verifier::external_body] pub fn shim_err() -> String { unimplemented!() }
 
 pub fn negative_currency_case(p: &str, currency: &str, scientific_format: &str, decimal_separator: char, group_separator: char) -> (r: Result<(f64, Option<String>), String>)
-    ensures r matches Ok((v, _)) ==> is_neg(g_f(), v)      // the stored value is -magnitude on EVERY accepting path
+    ensures r matches Ok((v, _)) ==> is_neg(g_f(), v),     // the stored value is -magnitude on EVERY accepting path
+        r is Ok ==> !signed(trimmed(p@)),                   // and the text after "-<currency>" carries no second sign ("-$-5" is not a number)
 {
-//@fragment#2 base/src/formatter/format.rs parse_formatted_number `let (f, options) = parse_number(p.trim(), decimal_separator, group_separator)?;` .. `return Ok((-f, Some(format!("{currency}#,##0"))));`
+//@fragment base/src/formatter/format.rs parse_formatted_number `if p.trim().starts_with(['-', '+']) {` .. `return Ok((-f, Some(format!("{currency}#,##0"))));`
+//@rewrite `if p.trim().starts_with(['-', '+']) {` => `if starts_with_sign(p.trim()) {`
+//@rewrite `return Err("Cannot parse number".to_string());` => `return Err(shim_err());`
 //@rewrite* `Ok((-f,` => `Ok((shim_neg(f),`
 //@end
 }
